@@ -25,6 +25,8 @@ pub struct Chopper {
     pub links: Arc<AtomicU64>,
     /// everything each link carried towards the upstream side, by link number in order of acceptance (the attacker's tape)
     pub recorded: Arc<Mutex<BTreeMap<u64, Vec<u8>>>>,
+    /// the same for the direction towards the client (what the server answered), by the same link numbers
+    pub recorded_down: Arc<Mutex<BTreeMap<u64, Vec<u8>>>>,
     task: tokio::task::JoinHandle<()>,
 }
 
@@ -44,6 +46,8 @@ pub async fn start(upstream: u16) -> std::io::Result<Chopper> {
     let whole_prefix = Arc::new(AtomicU64::new(0));
     let links = Arc::new(AtomicU64::new(0));
     let recorded: Arc<Mutex<BTreeMap<u64, Vec<u8>>>> = Arc::new(Mutex::new(BTreeMap::new()));
+    let recorded_down: Arc<Mutex<BTreeMap<u64, Vec<u8>>>> = Arc::new(Mutex::new(BTreeMap::new()));
+    let rec_down = recorded_down.clone();
     let (c, r, b, sg, lk, rec) = (cut.clone(), reset.clone(), blackhole.clone(), segment.clone(), links.clone(), recorded.clone());
     let wp = whole_prefix.clone();
     let task = tokio::spawn(async move {
@@ -53,6 +57,7 @@ pub async fn start(upstream: u16) -> std::io::Result<Chopper> {
             serial += 1;
             let link_no = serial;
             let (c, r, b, sg, lk, rec) = (c.clone(), r.clone(), b.clone(), sg.clone(), lk.clone(), rec.clone());
+            let rec_down = rec_down.clone();
             let wp = wp.clone();
             tokio::spawn(async move {
                 let Ok(s) = TcpStream::connect(("127.0.0.1", upstream)).await else { return };
@@ -120,7 +125,7 @@ pub async fn start(upstream: u16) -> std::io::Result<Chopper> {
                     }
                     (from, to)
                 };
-                let ((ar2, sw2), (sr2, aw2)) = tokio::join!(pump(ar, sw, c.clone(), b.clone(), sg.clone(), Some(rec.clone())), pump(sr, aw, c.clone(), b.clone(), sg.clone(), None));
+                let ((ar2, sw2), (sr2, aw2)) = tokio::join!(pump(ar, sw, c.clone(), b.clone(), sg.clone(), Some(rec.clone())), pump(sr, aw, c.clone(), b.clone(), sg.clone(), Some(rec_down.clone())));
                 if r.load(Ordering::SeqCst) {
                     if let Ok(a) = ar2.reunite(aw2) {
                         let _ = a.set_linger(Some(Duration::from_secs(0)));
@@ -133,5 +138,5 @@ pub async fn start(upstream: u16) -> std::io::Result<Chopper> {
             });
         }
     });
-    Ok(Chopper { port, cut, reset, blackhole, segment, whole_prefix, links, recorded, task })
+    Ok(Chopper { port, cut, reset, blackhole, segment, whole_prefix, links, recorded, recorded_down, task })
 }
